@@ -19,6 +19,7 @@
 #include "probe.h"
 #include <memory>
 #include <map>
+#include <thread>
 
 using namespace CDNS;
 
@@ -182,6 +183,18 @@ static CdnsBlockRead* read_back(CdnsBlock& src, bool assign) {
     return out;
 }
 
+// VERIF_HANDOFF=1: a block is handed from thread to thread - every other add runs on a thread of its own that is joined before the
+// history goes on (no two calls ever overlap).  What a table holds and returns is a matter of the values added, not of who adds.
+static bool g_handoff = getenv("VERIF_HANDOFF") != nullptr;
+static unsigned g_hand = 0;
+template <class F> static index_t maybe_elsewhere(F f) {
+    if (!g_handoff || (g_hand++ % 2) == 0) return f();
+    index_t r = 0;
+    std::thread t([&] { r = f(); });
+    t.join();
+    return r;
+}
+
 static void run_history(const json& h, const std::string& tab, const std::string& how, const std::string& cls)
 {
     vh::trace().emit({{"e", "R"}, {"tab", tab}, {"how", how}, {"cls", cls}});
@@ -195,12 +208,12 @@ static void run_history(const json& h, const std::string& tab, const std::string
         if (op == "add") {
             int t = o["t"], v = o["v"];
             CdnsBlock& b = *slots[t].blk;
-            index_t idx = do_add(b, tab, v);
+            index_t idx = maybe_elsewhere([&] { return do_add(b, tab, v); });
             vh::trace().emit({{"e", "A"}, {"t", t}, {"v", v}, {"idx", idx}, {"size", tab_size(b, tab)}, {"back", id_at(b, tab, idx, cands)}});
         } else if (op == "addv") {
             int t = o["t"], v = o["v"];
             CdnsBlock& b = *slots[t].blk;
-            index_t idx = do_addv(b, tab, v);
+            index_t idx = maybe_elsewhere([&] { return do_addv(b, tab, v); });
             vh::trace().emit({{"e", "AV"}, {"t", t}, {"v", v}, {"idx", idx}, {"size", tab_size(b, tab)}, {"back", id_at(b, tab, idx, cands)}});
         } else if (op == "clear") {
             int t = o["t"];
